@@ -127,4 +127,168 @@ theorem cfgLt_strictWeak {α : Type} (prio : α → Int) (name : α → String) 
     StrictWeak (fun a b : α => cfgLt (prio a) (name a) (prio b) (name b)) :=
   ⟨fun _ _ => cfgLt_asymm _ _ _ _, fun _ _ _ => cfgLt_negTrans _ _ _ _ _ _⟩
 
+/-! ### dictionaries, ranges, the process loop -/
+open Sv.Gen.Config
+set_option maxRecDepth 4000
+
+theorem lookup_cons' {α : Type} (k a : String) (b : α) (es : List (String × α)) :
+    List.lookup k ((a, b) :: es) = if k = a then some b else List.lookup k es := by
+  rw [List.lookup_cons]
+  by_cases h : k = a
+  · subst h; simp
+  · have : (k == a) = false := by simp [h]
+    simp [this, h]
+
+theorem lookup_dset {α : Type} (d : List (String × α)) (k k' : String) (v : α) :
+    (dset d k' v).lookup k = if k = k' then some v else d.lookup k := by
+  induction d with
+  | nil => simp only [dset, lookup_cons', List.lookup_nil]
+  | cons hd tl ih =>
+    obtain ⟨a, b⟩ := hd
+    simp only [dset]
+    by_cases h : a = k'
+    · subst h; simp only [beq_self_eq_true, if_true, lookup_cons']
+      by_cases h2 : k = a <;> simp [h2]
+    · have : (a == k') = false := by simp [h]
+      simp only [this, lookup_cons', ih]
+      by_cases h2 : k = a
+      · subst h2; simp [h]
+      · simp [h2, lookup_cons', ih]
+
+theorem lookup_append' {α : Type} (l₁ l₂ : List (String × α)) (k : String) :
+    (l₁ ++ l₂).lookup k = (l₁.lookup k <|> l₂.lookup k) := by
+  induction l₁ with
+  | nil => simp
+  | cons hd tl ih =>
+    obtain ⟨a, b⟩ := hd
+    simp only [List.cons_append, lookup_cons', ih]
+    by_cases h : k = a <;> simp [h]
+
+theorem lookup_dupdate {α : Type} (e d : List (String × α)) (k : String) :
+    (dupdate d e).lookup k = (e.reverse.lookup k <|> d.lookup k) := by
+  induction e generalizing d with
+  | nil => simp [dupdate]
+  | cons hd tl ih =>
+    obtain ⟨a, b⟩ := hd
+    simp only [dupdate, List.foldl_cons] at ih ⊢
+    rw [ih, lookup_dset]
+    simp only [List.reverse_cons, lookup_append', lookup_cons', List.lookup_nil]
+    cases List.lookup k tl.reverse <;> by_cases h : k = a <;> simp [h]
+
+theorem rangeFrom_length (lo : Int) (n : Nat) : (rangeFrom lo n).length = n := by
+  induction n generalizing lo with
+  | zero => rfl
+  | succ k ih => simp [rangeFrom, ih]
+
+theorem rangeFrom_get (lo : Int) (n i : Nat) (h : i < (rangeFrom lo n).length) : (rangeFrom lo n)[i] = lo + i := by
+  induction n generalizing lo i with
+  | zero => simp [rangeFrom] at h
+  | succ k ih =>
+    cases i with
+    | zero => simp [rangeFrom]
+    | succ j =>
+      simp only [rangeFrom, List.getElem_cons_succ]
+      rw [ih]; omega
+
+/-- the loop produces one process per number, in order, each by `mkProc` on that number -/
+theorem procLoop_spec (cx : Ctx) (kind : PKind) (sec : Section) (pre : Pre) (E : Exps) (nums : List Int) (ps : List PConfig)
+    (h : procLoop cx kind sec pre E nums = .ok ps) :
+    ps.length = nums.length ∧
+    ∀ i (hi : i < ps.length) (hn : i < nums.length), ∃ Ei Ei', mkProc cx kind sec pre Ei nums[i] = .ok (ps[i], Ei') := by
+  induction nums generalizing E ps with
+  | nil => simp [procLoop] at h; subst h; simp
+  | cons n rest ih =>
+    simp only [procLoop] at h
+    split at h
+    · contradiction
+    · rename_i p E' hmk
+      split at h
+      · contradiction
+      · rename_i ps' hrest
+        injection h with h; subst h
+        obtain ⟨hl, hall⟩ := ih E' ps' hrest
+        refine ⟨by simp [hl], ?_⟩
+        intro i hi hn
+        cases i with
+        | zero => exact ⟨E, E', by simpa using hmk⟩
+        | succ j =>
+          simp only [List.getElem_cons_succ]
+          exact hall j (by simpa using hi) (by simpa using hn)
+
+theorem lookup_none_of_keys {α : Type} (l : List (String × α)) (k : String) (h : ∀ kv ∈ l, kv.1 ≠ k) : l.lookup k = none := by
+  induction l with
+  | nil => rfl
+  | cons hd tl ih =>
+    obtain ⟨a, b⟩ := hd
+    rw [lookup_cons']
+    have : ¬ k = a := fun e => h (a, b) (by simp) e.symm
+    rw [if_neg this]
+    exact ih (fun kv hkv => h kv (by simp [hkv]))
+
+theorem env_key_ne (a k : String) (hk : k.toList.head? ≠ some 'E') : "ENV_" ++ a ≠ k := by
+  intro h
+  apply hk
+  rw [← h]
+  simp [String.toList_append]
+
+theorem envExps_lookup (E : Exps) (env : KV) (k : String) (hk : k.toList.head? ≠ some 'E') :
+    (envExps E env).lookup k = E.lookup k := by
+  unfold envExps
+  induction env generalizing E with
+  | nil => rfl
+  | cons hd tl ih =>
+    simp only [List.foldl_cons]
+    rw [ih, lookup_dset]
+    have : ¬ k = "ENV_" ++ hd.1 := fun e => env_key_ne hd.1 k hk e.symm
+    simp [this]
+
+/-- what a successful `parsePre` says about each option: the typed read of that option succeeded with the
+    value stored (so a malformed value of any of them makes `parsePre` fail) -/
+theorem parsePre_fields (cx : Ctx) (sec : Section) (E : Exps) (pre : Pre) (h : parsePre cx sec E = .ok pre) :
+    let g := fun (opt : String) (locals : List (String × Raw)) => getField cx.penv "program" sec opt locals E
+    (g "priority" [] >>= asInt) = .ok pre.priority ∧
+    (g "autostart" [] >>= asBool) = .ok pre.autostart ∧
+    (g "autorestart" [] >>= asRestart) = .ok pre.autorestart ∧
+    (g "startsecs" [] >>= asInt) = .ok pre.startsecs ∧
+    (g "startretries" [] >>= asInt) = .ok pre.startretries ∧
+    (g "stopsignal" [] >>= asInt) = .ok pre.stopsignal ∧
+    (g "stopwaitsecs" [] >>= asInt) = .ok pre.stopwaitsecs ∧
+    (g "stopasgroup" [] >>= asBool) = .ok pre.stopasgroup ∧
+    (g "killasgroup" [("stopasgroup", .bool pre.stopasgroup)] >>= asBool) = .ok pre.killasgroup ∧
+    (g "exitcodes" [] >>= asInts) = .ok pre.exitcodes ∧
+    (g "redirect_stderr" [] >>= asBool) = .ok pre.redirect_stderr ∧
+    (g "numprocs" [] >>= asInt) = .ok pre.numprocs ∧
+    (g "numprocs_start" [] >>= asInt) = .ok pre.numprocs_start ∧
+    (g "environment" [] >>= asStr) = .ok pre.environment_str ∧
+    (g "stdout_capture_maxbytes" [] >>= asInt) = .ok pre.stdout_cmaxbytes ∧
+    (g "stdout_events_enabled" [] >>= asBool) = .ok pre.stdout_events ∧
+    (g "stderr_capture_maxbytes" [] >>= asInt) = .ok pre.stderr_cmaxbytes ∧
+    (g "stderr_events_enabled" [] >>= asBool) = .ok pre.stderr_events ∧
+    (g "process_name" [] >>= asStr) = .ok pre.process_name := by
+  simp only [parsePre, bind, Except.bind, pure, Except.pure] at h
+  repeat (split at h <;> try contradiction)
+  injection h with h
+  subst h
+  simp only [bind, Except.bind]
+  simp [*]
+
+theorem processesUnsorted_ok (cx : Ctx) (kind : PKind) (sec : Section) (suffix g : String) (ps : List PConfig)
+    (h : processesUnsorted cx kind sec suffix g = .ok ps) :
+    ∃ pn pre, processOrGroupName suffix = .ok pn ∧ parsePre cx sec (commonExps cx pn g) = .ok pre ∧
+      checkPre pre = .ok () ∧ procLoop cx kind sec pre (commonExps cx pn g) (procNums pre) = .ok ps := by
+  simp only [processesUnsorted, bind, Except.bind] at h
+  repeat (split at h <;> try contradiction)
+  rename_i _ pn h1 _ pre h2 _ u h3
+  exact ⟨pn, pre, h1, h2, by cases u; exact h3, h⟩
+
+theorem procNums_eq (pre : Pre) : procNums pre = rangeFrom pre.numprocs_start pre.numprocs.toNat := by
+  simp only [procNums, procNumLo, procNumHi]
+  congr 1
+  omega
+
+theorem isError_of_not_ok {α : Type} (x : Except String α) (h : ∀ a, x ≠ .ok a) : ∃ e, x = .error e := by
+  cases x with
+  | error e => exact ⟨e, rfl⟩
+  | ok a => exact absurd rfl (h a)
+
 end Sv.Config
